@@ -78,6 +78,48 @@ pub fn gen(tier: &str, r: &mut Rng) -> Vec<String> {
             out.push(format!("c01 corrupt {} {} {} {}", ["Strict", "Medium", "Loose"][r.below(3)], name, ["blank", "garbage", "truncate"][how], enc_bytes(t.as_bytes())));
         }
     }
+    // disulfide bonds: cysteines that share a residue number and differ in the insertion code, SSBOND records
+    // naming them with the right, a wrong or no insertion code, at several record lengths
+    for k in 0..budget(tier, 150, 3000) {
+        let mut rr = Rng::new(7000 + k as u64, "ssbond");
+        let mut lines = Vec::new();
+        let n = 2 + rr.below(4);
+        let mut res: Vec<(char, i64, char)> = Vec::new();
+        let mut atoms = Vec::new();
+        let mut serial = 0;
+        for i in 0..n {
+            let chain = if rr.chance(1, 3) { 'B' } else { 'A' };
+            let resseq = 1 + (i as i64) / 2;
+            let icode = *rr.pick(&[' ', 'A', 'B']);
+            if res.contains(&(chain, resseq, icode)) { continue; }
+            res.push((chain, resseq, icode));
+            let names: &[(&str, &str)] = if rr.chance(1, 6) { &[("N", "N"), ("CA", "C")] } else { &[("N", "N"), ("CA", "C"), ("SG", "S")] };
+            for (nm, el) in names {
+                serial += 1;
+                atoms.push(AtomRec { het: false, serial, name: (*nm).into(), alt: ' ', resname: "CYS".into(), chain, resseq, icode,
+                    x: rr.range(-50, 50) * 1000, y: rr.range(-50, 50) * 1000, z: rr.range(-50, 50) * 1000, occ: 1_000_000, b: 10_000_000, seg: String::new(), element: (*el).into(), charge: 0, aniso: None });
+            }
+        }
+        atoms.sort_by_key(|a| (a.chain, a.resseq, a.icode, a.serial));
+        // expectation, worked out from the generator's own data: a record is a bond when both ends name a
+        // residue (chain, number, insertion code) that has an SG atom; one end that does not is an error
+        let has_sg = |c: char, n: i64, i: char| atoms.iter().any(|a| a.chain == c && a.resseq == n && a.icode == i && a.name == "SG");
+        let (mut bonds, mut missing, mut unknown) = (0usize, false, false);
+        for k2 in 0..1 + rr.below(3) {
+            let (a, b) = (*rr.pick(&res), *rr.pick(&res));
+            let ic = |rr: &mut Rng, c: char| if rr.chance(1, 4) { *rr.pick(&[' ', 'A', 'B']) } else { c };
+            let (ia, ib) = (ic(&mut rr, a.2), ic(&mut rr, b.2));
+            let mut l = format!("SSBOND {:>3} CYS {} {:>4}{}   CYS {} {:>4}{}{}{:>6} {:>6} {:>5}", k2 + 1, a.0, a.1, ia, b.0, b.1, ib, " ".repeat(23), "1555", "1555", "2.03");
+            if rr.chance(1, 10) { l.truncate(*rr.pick(&[35usize, 36, 59, 72, 77])); unknown = true; }
+            if rr.chance(1, 5) { l.push_str("  "); }
+            if has_sg(a.0, a.1, ia) && has_sg(b.0, b.1, ib) { bonds += 1; } else { missing = true; }
+            lines.push(l);
+        }
+        for a in &atoms { lines.push(pdbtext::atom_line(a, &mut rr, false)); }
+        lines.push("END".into());
+        let expect = if unknown { "?".to_string() } else if missing { "R".to_string() } else { bonds.to_string() };
+        out.push(format!("c01 ssbond {} {} {}", ["Strict", "Medium", "Loose"][k % 3], expect, enc_bytes((lines.join("\n") + "\n").as_bytes())));
+    }
     // the same convention on short texts (compared with the Lean reader model as well): serials 99998, 99999, 0, 1 …
     for k in 0..budget(tier, 6, 60) {
         let mut rr = Rng::new(1000 + k as u64, "wrap-small");
@@ -249,6 +291,28 @@ pub fn exec(case: &str) -> Exec {
                             }
                         }
                     }
+                }
+            }
+        }
+        "ssbond" => {
+            let level = t.next().unwrap().to_string();
+            let expect = t.next().unwrap().to_string();
+            let bytes = dec_bytes(t.next().unwrap()).unwrap();
+            let o = Opts::parse(&level, "000");
+            let r = read("pdb", &o, &bytes);
+            ex.resp = outcome_tok(&r);
+            ex.req = format!("pdb read {} 000 {}", level, enc_bytes(&bytes));
+            ex.tags.push(format!("ssbond-expect:{}", if expect == "?" { "unknown" } else if expect == "R" { "rejected" } else { "bonds" }));
+            match &r {
+                Read::Panic(m) => ex.failures.push(Failure::new("reader-panicked-on-well-formed-text", m.clone())),
+                Read::Err(d) => {
+                    let only_partner = d.iter().filter(|e| e.level().fails(o.level)).all(|e| e.short_description() == "Could not find a bond partner");
+                    if expect != "R" && expect != "?" && only_partner { ex.failures.push(Failure::new("disulfide-bond-between-existing-residues-not-found", diags_tok(d))); }
+                }
+                Read::Ok(p, _) => {
+                    let n = p.bonds().count();
+                    if expect == "R" { ex.failures.push(Failure::new("disulfide-bond-to-a-missing-residue-accepted", format!("{n} bonds"))); }
+                    else if expect != "?" && expect != n.to_string() { ex.failures.push(Failure::new("disulfide-bond-count-differs-from-the-records", format!("{n} bonds, {expect} records"))); }
                 }
             }
         }
